@@ -125,7 +125,38 @@ def run(ck):
     st = ck.cov["streams"].setdefault("sessions", {"evaluations": 0, "distinct_nontrivial": 0})
     st["model_disagreements"] = ndis
     ck.count("sessions", len(ss), nontriv, sample={"ops": [[sessions.FILES[f], v.k] for f, v in ss[len(ss) // 2][1]], "model": mres[len(ss) // 2]})
+    overlapping_runs(ck)
     return ck.finish(extra_cov={"traces_validated_against_impl": len(ss)}, **FINISH)
+
+
+def overlapping_runs(ck):
+    """a notification for a document that is not a file starts a diagnostics run without waiting for the one that is going: two runs
+    overlap and may finish in either order (the jitter decides); whatever the order, a document that left the workspace ends cleared"""
+    bad_b = "class B\n"
+    cases = []
+    for jit in range(1, 9):
+        cases.append(("include-removed", jit, {"b.td": bad_b}, [["open", "a.td", 'include "b.td"\nclass A;\n'], ["idle"], ["change", "a.td", "class A;\n"],
+                                                                ["openuri", "untitled:Untitled-1", "class U;\n"], ["changeuri", "untitled:Untitled-1", "class V;\n"], ["idle"]], ["b.td"]))
+        cases.append(("document-switch", jit, {}, [["open", "a.td", "class A\n"], ["idle"], ["open", "c.td", "class C;\n"],
+                                                    ["changeuri", "untitled:Untitled-1", "class V;\n"], ["openuri", "untitled:Untitled-2", "class W;\n"], ["idle"]], ["a.td"]))
+    lines = ["srv " + json.dumps({"dir": "%s/tmp/ovl11_%d" % (core.BUILD, i), "disk": dk, "script": sc, "timeout_ms": 10000, "jitter": jit})
+             for i, (_, jit, dk, sc, _) in enumerate(cases)]
+    outs = core.impl(lines, timeout=180, jobs=4, tag="ovl11")
+    for (name, jit, dk, sc, gone), line, o in zip(cases, lines, outs):
+        try:
+            d = json.loads(o)
+        except Exception:
+            ck.fail(["C11", "overlap", name], "session aborts: %s" % o[:80], {"cmd": line[:2000]}, o[:200], "answers")
+            continue
+        last = {}
+        for m in d["msgs"]:
+            if m.get("method") == "textDocument/publishDiagnostics":
+                last[m["params"]["uri"].rsplit("/", 1)[1]] = [x["message"] for x in m["params"]["diagnostics"]]
+        stale = [f for f in gone if last.get(f)]
+        if d.get("timeout") or stale:
+            ck.fail(["C11", "overlap", name], "after overlapping diagnostics runs %s keeps %s although it left the workspace" % (stale, [last.get(f) for f in stale]) if stale
+                    else "the server does not become idle", {"cmd": line[:2000]}, json.dumps(last)[:300], "cleared")
+    ck.count("overlapping_runs", len(cases), {(c[0], c[1]) for c in cases}, sample={"script": cases[0][3]})
 
 
 def replay(ck, path):
